@@ -30,6 +30,9 @@ OBS_BODY = """
   <o p1="{$p1}" p2="{$p2}" p3="{$p3}" g="{$g}" t="{count(//text())}" xsl:use-attribute-sets="as">
    <xsl:if test="function-available('ext:f1')"><f1><xsl:value-of select="ext:f1()"/></f1></xsl:if>
    <xsl:if test="function-available('ext:f2')"><f2><xsl:value-of select="ext:f2()"/></f2></xsl:if>
+   <xsl:if test="function-available('ext:g1')"><g1><xsl:value-of select="ext:g1()"/></g1></xsl:if>
+   <xsl:if test="function-available('ext:g2')"><g2><xsl:value-of select="ext:g2()"/></g2></xsl:if>
+   <p3n><xsl:value-of select="boolean($p3)"/>:<xsl:value-of select="string-length(string($p3))"/></p3n>
    <k><xsl:value-of select="key('k','2')"/>|<xsl:value-of select="count(key('kc','1'))"/></k>
    <xsl:apply-templates select="doc/b" mode="m"/>
    <xsl:for-each select="//c"><xsl:sort select="." data-type="number"/><n><xsl:number level="any" count="c"/>:<xsl:number level="multiple" count="b|c" format="1.a"/>:<xsl:value-of select="."/></n></xsl:for-each>
@@ -65,11 +68,20 @@ def _mk_deep(abort, output=OUT_XML):
 MSG = '<xsl:message terminate="yes">stop <xsl:value-of select="$p1"/></xsl:message>'
 IFBOOM = lambda inner: '<xsl:if test="$p2 = \'boom\'">' + inner + '</xsl:if>x'
 
+NEST = ('<out><xsl:for-each select="//c"><xsl:sort select="." data-type="number"/><xsl:variable name="outer" select="."/>'
+        '<xsl:for-each select="//a|//c"><xsl:sort select="name()"/><xsl:sort select="."/>'
+        '<xsl:variable name="v"><r><xsl:attribute name="q"><xsl:value-of select="concat(., \'-\', $outer)"/>'
+        '<xsl:for-each select="key(\'kc\', $outer)"><xsl:value-of select="position()"/>'
+        '<xsl:if test="$outer = 1 and position() = last()">%s</xsl:if></xsl:for-each></xsl:attribute>'
+        '<xsl:copy-of select="key(\'k\', \'2\')"/></r></xsl:variable>'
+        '<xsl:copy-of select="$v"/><xsl:comment><xsl:value-of select="count(key(\'kc\', .))"/></xsl:comment>'
+        '</xsl:for-each></xsl:for-each></out>')
+
 SHEETS = {
     # ---- observers
     "obs": _sheet(OUT_XML, "", '<out><xsl:call-template name="observe"/></out>'),
     "obs_strip": _sheet(OUT_XML, '<xsl:strip-space elements="*"/>', '<out strip="y"><xsl:call-template name="observe"/></out>'),
-    "obs_html": _sheet('<xsl:output method="html"/>', "", '<html><body><xsl:call-template name="observe"/></body></html>'),
+    "obs_html": _sheet('<xsl:output method="html"/>', "", '<html><head><title>t</title></head><body><a href="a b&#233;.html?x=1&amp;y=&#233;">l</a><xsl:call-template name="observe"/></body></html>'),
     "obs_text": _sheet('<xsl:output method="text"/>', "", '<xsl:call-template name="observe"/>'),
     "obs_cdata": _sheet('<xsl:output method="xml" omit-xml-declaration="yes" cdata-section-elements="n i"/>', "", '<out><xsl:call-template name="observe"/></out>'),
     "obs_ind": _sheet('<xsl:output method="xml" indent="yes" encoding="ISO-8859-1"/>', "", '<out><xsl:call-template name="observe"/></out>'),
@@ -93,6 +105,9 @@ SHEETS = {
     "char_comment": _sheet('<xsl:output method="xml" encoding="US-ASCII" omit-xml-declaration="yes"/>', "", '<out><xsl:call-template name="observe"/><xsl:comment>&#233;</xsl:comment><xsl:processing-instruction name="pi">&#233;</xsl:processing-instruction></out>'),
     "recurse": _sheet(OUT_XML, '<xsl:template name="inf"><xsl:param name="n"/><xsl:if test="$n &lt; 300"><d><xsl:call-template name="inf"><xsl:with-param name="n" select="$n + 1"/></xsl:call-template></d></xsl:if><xsl:if test="$n = 300">' + MSG + '</xsl:if></xsl:template>',
                       '<out><xsl:call-template name="inf"><xsl:with-param name="n" select="0"/></xsl:call-template></out>'),
+    # nested for-each / sort / key / RTF / string building: the same body once aborting in the innermost place, once not
+    "nest_abort": _sheet(OUT_XML, "", NEST % MSG),
+    "nest_ok": _sheet(OUT_XML, "", NEST % ""),
     # ---- aborters switched by the sticky param p2 = 'boom'
     "sw_msg": _mk_deep(IFBOOM(MSG)),
     "sw_xperr": _mk_deep(IFBOOM('<xsl:for-each select="$p1"><q/></xsl:for-each>')),
@@ -112,13 +127,19 @@ SOURCES = {
 BAD_SOURCES = {"dbad"}
 
 GOOD_SHEETS = sorted(k for k in SHEETS if k not in BAD_SHEETS)
-OBSERVERS = [k for k in GOOD_SHEETS if k.startswith("obs")]
-ABORTERS = [k for k in GOOD_SHEETS if not k.startswith("obs")]
+OBSERVERS = [k for k in GOOD_SHEETS if k.startswith("obs") or k == "nest_ok"]
+ABORTERS = [k for k in GOOD_SHEETS if k not in OBSERVERS]
+# (stylesheet, source) pairs for the memory probe: live bytes of the transformer's MemoryManager must not grow per call
+LEAK_PROBES = [("obs", "d1"), ("msg_deep", "d1"), ("xperr_deep", "d1"), ("msg_rtf", "d2"), ("nest_abort", "d2"), ("enc_unknown", "d1")]
 GOOD_SOURCES = sorted(k for k in SOURCES if k not in BAD_SOURCES)
 
 PARAM_EXPRS = ["'v1'", "'boom'", "1+2", "'x_y'", "concat('a','b')", "''", "//no/such", "2*3"]
 PARAM_EXPRS = [e for e in PARAM_EXPRS if " " not in e]
 PARAM_NUMS = ["5", "0", "-2.5", "1e3"]
+PARAM_OBJS = ["B:true", "B:false", "S:text", "S:boom"]
+GFUNCS = ["g1", "g2"]
+CONFIGS = [("indent", ["0", "2", "7"]), ("enc", ["UTF-8", "ISO-8859-1", "US-ASCII", "UTF-16", "-"]), ("escurl", ["0", "1", "2"]),
+           ("omitmeta", ["0", "1", "2"]), ("plistener", ["0", "1"]), ("tlistener", ["0", "1"])]
 KEYS = ["p1", "p2", "p3", "unused"]
 FUNCS = ["f1", "f2"]
 NSLOT = 3
@@ -142,7 +163,8 @@ def gen_history(r, maxops):
     while len(ops) < n:
         k = r.weighted([("compile", 5), ("parse", 4), ("setexpr", 5), ("setnum", 3), ("clear", 2), ("install", 2),
                         ("uninstall", 1), ("dsheet", 2), ("dsource", 2), ("transform", 12), ("transformsrc", 7),
-                        ("compilebad", 1), ("parsebad", 1)])
+                        ("compilebad", 1), ("parsebad", 1), ("setobj", 2), ("setnode", 2), ("ginstall", 1), ("guninstall", 1),
+                        ("config", 4)])
         seed = r.below(100000)
         if k == "compile":
             s = r.choice(GOOD_SHEETS if not r.chance(1, 2) else (OBSERVERS if aborted else ABORTERS))
@@ -160,6 +182,17 @@ def gen_history(r, maxops):
             ops.append("setexpr %s %s" % (r.choice(KEYS), r.choice(PARAM_EXPRS)))
         elif k == "setnum":
             ops.append("setnum %s %s" % (r.choice(KEYS), r.choice(PARAM_NUMS)))
+        elif k == "setobj":
+            ops.append("setobj %s %s" % (r.choice(KEYS), r.choice(PARAM_OBJS)))
+        elif k == "setnode":
+            ops.append("setnode %s %s" % (r.choice(KEYS), r.choice(GOOD_SOURCES)))
+        elif k == "ginstall":
+            ops.append("ginstall %s" % r.choice(GFUNCS))
+        elif k == "guninstall":
+            ops.append("guninstall %s" % r.choice(GFUNCS))
+        elif k == "config":
+            cn, vs = r.choice(CONFIGS)
+            ops.append("config %s %s" % (cn, r.choice(vs)))
         elif k == "clear":
             ops.append("clearparams")
         elif k == "install":
@@ -184,13 +217,13 @@ def gen_history(r, maxops):
                 continue
             a = r.choice(sorted(sheets)); b = r.choice(sorted(sources))
             ops.append("transform %d %d %d" % (a, b, seed))
-            aborted = not sheets[a].startswith("obs")
+            aborted = sheets[a] in ABORTERS
         elif k == "transformsrc":
             pool = OBSERVERS if (aborted and r.chance(2, 3)) else GOOD_SHEETS + sorted(BAD_SHEETS)
             s = r.choice(pool)
             d = r.choice(GOOD_SOURCES + (["dbad"] if r.chance(1, 6) else []))
             ops.append("transformsrc %s %s %d" % (s, d, seed))
-            aborted = not s.startswith("obs")
+            aborted = s in ABORTERS
     return ops
 
 
@@ -207,5 +240,19 @@ CORPUS = [
     ("every-aborter", sum([["transformsrc %s d1 %d" % (s, i), "transformsrc obs d2 %d" % i] for i, s in enumerate(ABORTERS)], [])),
     ("sticky-through-abort", ["setexpr p2 'boom'", "setexpr p1 'v'", "install f1", "transformsrc sw_msg d1 1", "transformsrc obs d1 2",
                               "clearparams", "transformsrc sw_msg d1 3", "uninstall f1", "transformsrc sw_fn d1 4", "transformsrc obs d2 5"]),
+    ("all-param-kinds-between-aborts", ["setexpr p1 'e'", "setnum p2 5", "setobj p3 B:true", "transformsrc msg_deep d1 1", "transformsrc obs d1 2",
+                                        "setnode p3 d3", "setobj p1 S:boom", "transformsrc sw_xperr d2 3", "clearparams", "transformsrc obs d2 4",
+                                        "setnode p1 d1", "transformsrc xperr_deep d1 5", "transformsrc obs d1 6", "clearparams", "transformsrc obs d1 7"]),
+    ("config-sticky", ["config indent 7", "config enc ISO-8859-1", "config escurl 2", "config omitmeta 2", "config plistener 1", "config tlistener 1",
+                       "transformsrc obs_html d1 1", "transformsrc msg_deep d1 2", "transformsrc obs_ind d2 3", "transformsrc obs_html d2 4",
+                       "config plistener 0", "config tlistener 0", "config enc -", "transformsrc obs_ind d1 5", "transformsrc obs_html d1 6"]),
+    ("global-functions", ["ginstall g1", "transformsrc obs d1 1", "install f1", "ginstall g2", "transformsrc msg_deep d1 2", "transformsrc obs d1 3",
+                          "guninstall g1", "transformsrc obs d1 4", "uninstall f1", "guninstall g2", "transformsrc obs d1 5"]),
+    ("slot-reuse", ["compile 0 obs ok", "parse 0 d1 ok", "transform 0 0 1", "dsheet 0", "compile 0 msg_deep ok", "transform 0 0 2", "dsheet 0",
+                    "compile 0 obs_strip ok", "dsource 0", "parse 0 d2 ok", "transform 0 0 3", "compile 1 obs ok", "transform 1 0 4", "dsource 0",
+                    "parse 0 d3 ok", "transform 1 0 5", "transform 0 0 6"]),
+    # F2: abort deep inside nested for-each/sort/key/RTF, then stylesheets that borrow the same cache slots
+    ("objstack-reuse-after-abort", ["transformsrc nest_abort d2 1", "transformsrc nest_ok d2 2", "transformsrc nest_abort d1 3", "transformsrc nest_abort d2 4",
+                                    "transformsrc nest_ok d1 5", "transformsrc obs d1 6", "transformsrc nest_ok d2 7"]),
     ("destroy-twice", ["compile 0 obs ok", "dsheet 0", "dsheet 0", "dsource 1", "parse 1 d1 ok", "dsource 1", "dsource 1"]),
 ]
